@@ -47,7 +47,20 @@ def _worker(job):
     t0 = time.time()
     err = None
     try:
-        L.run_config(ctx, cfg)
+        while True:
+            try:
+                L.run_config(ctx, cfg)
+                break
+            except alg.FinerExp:
+                # half-angle style code: repeat the whole configuration with atoms exp(g/4), exp(g/8) (the reading of
+                # the atoms is global, so nothing of the abandoned run is kept)
+                if alg.EXP_DEN >= 8:
+                    raise
+                alg.EXP_DEN *= 2
+                alg._FACTORS.clear(); alg.POSITIVE.clear(); alg.CERTIFIED_NONNEG.clear(); alg.GENERIC_POSITION.clear()
+                st.FRAME_VIOLATIONS.clear() if hasattr(st, "FRAME_VIOLATIONS") and hasattr(st.FRAME_VIOLATIONS, "clear") else None
+                ctx = obl.Ctx(prop, tier, seed, cfg)
+                ctx.canary = canary
     except alg.ValueDependent as e:
         ctx.undecided("run", "value-dependent control flow: %s" % e)
     except alg.Unmodelled as e:
@@ -244,6 +257,8 @@ def run_check(prop, tier, seed, jobs=None):
             print("CHECKER-CRASH cfg=%s\n%s" % (r["cfg"], r["error"]), file=sys.stderr)
         return 3
     if reported:
+        for o in und[:5]:
+            print("UNDECIDED %s: %s" % (o["name"], str(o.get("detail"))[:300]))
         for o, path, tail in reported:
             print("VIOLATION property=%s replay=%s obligation=%s%s" % (prop, (os.path.relpath(path, VERIF) if path.startswith(VERIF) else path), o["name"].replace(" ", "_"), tail))
         return 1
